@@ -107,6 +107,14 @@ TABLE = {
             "objects; a structural snapshot of scenario + planning problems (caches excluded by name) and the XML export are "
             "taken before and after EACH operation and TLC validates before = after, naming operation and first differing path.",
             "TLC, the attribute-walk snapshot with its cache exclusion list, SHA-1 of date-stripped XML exports"),
+    "C16": ("Intervals.tla / MC_Intervals.tla / Trace_Intervals.tla",
+            "Plain intervals on the dyadic grid k/4 and angle intervals on the pi/12 grid; every operation's expected result "
+            "is a closed form that TLC checks against the literal set semantics (comprehension over the finite grid): result "
+            "has start <= end and equals the image set; angle membership is three-valued with EITHER only on end points "
+            "reached after a non-zero number of wraps. Every enumerated (interval, operation, argument) incl. int arguments, "
+            "lengths up to 23 grid steps and all positions in [-2pi, 2pi] is executed on real Interval / AngleInterval objects "
+            "and TLC validates results, exceptions (Total) and the rejection of inverted intervals.",
+            "TLC, exactness of dyadic float arithmetic, k*pi/12 as float"),
 }
 
 PENDING_REASON = "check not built yet in this round (specification module planned in DESIGN.md section 4); not claimed"
